@@ -220,6 +220,27 @@ def kind_c(report, tier, seed):
                     fail("roundtrip:" + repr(text), dict(what="accepted text does not round-trip", text=text, deparsed=a.deparse()))
         except Exception as e:
             fail("total:" + repr(text), dict(what=f"parse_assignment raised {type(e).__name__}: {e}", text=text))
+    # literals mean the number they spell: integers exactly (beyond 2**53 and beyond the range of a double too),
+    # decimals and exponents as Python reads them
+    from tensora.expression import ast as _sugar
+
+    for spelled in ["0", "7", "007", "9007199254740993", "18446744073709551617", "123456789012345678901234567890", "1" + "0" * 320,
+                    "2.5", "0.1", "1e5", "1E5", "25E-3", "1.5e+3", "12.", "3.0E0"]:
+        evals += 1
+        text = f"a() = {spelled} * b()"
+        try:
+            r = parse_assignment(text)
+        except Exception as e:
+            fail("literal-meaning:" + spelled[:40], dict(what=f"parse_assignment raised {type(e).__name__}: {str(e)[:100]}", text=text[:80]))
+            continue
+        if isinstance(r, Success):
+            lit = r.unwrap().expression.left
+            if spelled.isdigit():
+                ok = isinstance(lit, _sugar.Integer) and lit.value == int(spelled)
+            else:
+                ok = isinstance(lit, _sugar.Float) and lit.value == float(spelled)
+            if not ok:
+                fail("literal-meaning:" + spelled[:40], dict(what=f"the literal {spelled[:40]!r} parses to {lit!r:.80}", text=text[:80]))
     # literal corner cases
     for text, known in [("a() = 1e999", "F6"), ("a() = " + "9" * 5000, "F7a"), ("a() = 1e308 * 10.0", None), ("a() = 0.0000000000000000000000001", None),
                         ("a() = 123456789012345678901234567890", None), ("a() = 1e-400", None)]:
